@@ -306,9 +306,7 @@ pub fn run(args: &Args) -> i32 {
     }
     run.cov("evaluations", evaluations);
     run.cov("distinct_nontrivial", distinct);
-    run.cov("states", distinct);
-    run.cov("transitions", evaluations);
-    run.cov("traces_validated_against_impl", evaluations);
+    run.cov("schedules_executed_on_real_code", evaluations);
     run.cov("scenarios", per);
     run.cov("exhaustive", exhaustive);
     run.cov("rule", "for each scenario (server protocol x client connections x late client x buffer size) every schedule of the real server + raw hyper clients under the deterministic executor with at most `deviation_bound` deviations from FIFO-by-wake order; firing the shutdown signal at a scheduling point is one kind of deviation, so the signal lands at every point of the default schedule and, with the remaining budget, at every point of every once-deviated schedule; distinct = distinct observation traces (server result, handlers entered, handlers entered at signal time, per-client outcome, closed connections)");
